@@ -5110,7 +5110,9 @@ EmitOp_MemBaseIndex_Rn5_Rm16:
 
 EmitOp_Rel:
   {
-    if (rm_rel->is_label() || rm_rel->is_mem()) {
+    // NOTE: A memory operand without a base is an absolute address - it's handled like an immediate target below,
+    // its `base_id()` holds the upper 32 bits of the address and must never be interpreted as a label id.
+    if (rm_rel->is_label() || (rm_rel->is_mem() && rm_rel->as<Mem>().has_base_label())) {
       uint32_t label_id;
       int64_t label_offset = 0;
 
@@ -5151,11 +5153,11 @@ EmitOp_Rel:
     }
   }
 
-  if (rm_rel->is_imm()) {
+  if (rm_rel->is_imm() || (rm_rel->is_mem() && !rm_rel->as<Mem>().has_base())) {
     uint64_t base_address = _code->base_address();
     uint64_t section_offset = _section->offset();
 
-    uint64_t target_offset = rm_rel->as<Imm>().value_as<uint64_t>();
+    uint64_t target_offset = rm_rel->is_imm() ? rm_rel->as<Imm>().value_as<uint64_t>() : uint64_t(rm_rel->as<Mem>().offset());
     size_t code_offset = writer.offset_from(_buffer_data);
 
     if (!EmitterUtils::is_absolute_location(base_address, section_offset)) {
@@ -5169,7 +5171,7 @@ EmitOp_Rel:
       re->_source_section_id = _section->section_id();
       re->_source_offset = code_offset;
       re->_format = offset_format;
-      re->_payload = rm_rel->as<Imm>().value_as<uint64_t>() + 4u;
+      re->_payload = target_offset + 4u;
       goto EmitOp;
     }
     else {
